@@ -146,6 +146,10 @@ func runC20(c *eng.Ctx) {
 			v, isVal := call.(*ssa.Call)
 			used := isVal && len(*v.Referrers()) > 0
 			c.Check("R2", key, call.Pos(), used, "the error result of a transmit-family call is used (tested or returned), not discarded", eng.RenderCall(cc))
+			if used {
+				lost, why := c20Overwritable(v)
+				c.Check("R2", key+"/not-overwritten", call.Pos(), !lost, "the error result is tested or returned before a later call can overwrite it (no `err = f()` in a loop with the test after the loop)", why)
+			}
 		}
 	}
 	c.Floor("R2", 12)
@@ -256,4 +260,46 @@ func errorOrigin(x ssa.Value) string {
 		}
 	}
 	return ""
+}
+
+// c20Overwritable: the error produced by call flows, untested, into a φ at the
+// head of a loop that contains the call — so the next iteration replaces it and
+// a failure of an earlier iteration is forgotten.
+func c20Overwritable(call *ssa.Call) (bool, string) {
+	var errVals []ssa.Value
+	if isErrorType(call.Type()) {
+		errVals = append(errVals, call)
+	} else {
+		for _, ref := range *call.Referrers() {
+			if ex, ok := ref.(*ssa.Extract); ok && isErrorType(ex.Type()) {
+				errVals = append(errVals, ex)
+			}
+		}
+	}
+	for _, ev := range errVals {
+		refs := ev.(interface{ Referrers() *[]ssa.Instruction }).Referrers()
+		tested := false
+		var loopPhi *ssa.Phi
+		for _, ref := range *refs {
+			switch r := ref.(type) {
+			case *ssa.BinOp:
+				if eng.IsNilConst(r.X) || eng.IsNilConst(r.Y) {
+					tested = true
+				}
+			case *ssa.Phi:
+				if r.Block().Dominates(call.Block()) && r.Block() != call.Block() {
+					loopPhi = r
+				}
+				for j, p := range r.Block().Preds {
+					if r.Edges[j] == ev && r.Block().Dominates(p) {
+						loopPhi = r
+					}
+				}
+			}
+		}
+		if loopPhi != nil && !tested {
+			return true, "flows untested into the loop-carried value " + eng.Render(loopPhi)
+		}
+	}
+	return false, ""
 }
